@@ -352,9 +352,10 @@ def distinct_keys(results):
 # replay files
 
 def write_replay(prop, seed, i, v, tag=''):
-    os.makedirs(os.path.join(VERIF, 'replays'), exist_ok=True)
+    rdir = os.environ.get('VERIF_REPLAY_DIR') or os.path.join(VERIF, 'replays')
+    os.makedirs(rdir, exist_ok=True)
     name = '%s-%d-%d%s.json' % (prop, seed, i, tag)
-    path = os.path.join(VERIF, 'replays', name)
+    path = os.path.join(rdir, name)
     with open(path, 'w') as f:
         json.dump({'property': prop, 'seed': seed, 'run': i, 'class': list(vclass(v)), 'msg': v['msg'],
                    'desc': v['desc']}, f, indent=1, sort_keys=True, default=str)
